@@ -43,6 +43,7 @@ type vEnv struct {
 	plugCloseErr bool
 	execStartT  int64
 	sawSignal bool
+	immediate bool // lazily chosen behaviours never include 'runs until cancelled'
 	objectResult bool // the plugin's output data is the object {"v": <opaque>}
 	lastResult verifrt.Val
 	enabledFalse bool
@@ -164,7 +165,9 @@ func verifAtomicExecLeave(e *vEnv, signalled bool) {
 func (a *vATP) Execute(input schema.Input, toStep <-chan schema.Input, fromStep chan<- schema.Input) atp.ExecutionResult {
 	verifAtomicExecEnter(a.env)
 	if a.env.lazy {
-		a.env.execMode = verifrt.Choice("execMode", 2)
+		if !a.env.immediate {
+			a.env.execMode = verifrt.Choice("execMode", 2)
+		}
 		switch verifrt.Choice("result", 3) {
 		case 1:
 			a.env.resultID = "error"
